@@ -10,10 +10,10 @@ import (
 // C04 - published active list covers every semi-sync acker and matches the ack count.
 type orC04 struct {
 	baseOracle
-	atEnter map[string][2]bool // per incarnation: (a),(b) when its current Manager iteration began (valid flag in third map)
-	judged  map[string]bool
-	lastMut string
-	lastOp  string // most recent mysync operation (classified)
+	atEnter      map[string][2]bool // per incarnation: (a),(b) when its current Manager iteration began (valid flag in third map)
+	judged       map[string]bool
+	lastMut      string
+	lastOp       string // most recent mysync operation (classified)
 	curA, curB   bool
 	flipA, flipB string // operation that turned (a)/(b) from true to false (cleared when true again)
 	flipAHost    string
